@@ -196,7 +196,7 @@ func c10Craft(args []string) int {
 }
 
 func runC10Crafted(c *fw.Case, j int) {
-	work := c.Dir
+	work := realDir(c.Dir) // (the traced process sees real paths: a case directory reached through a link is resolved once)
 	dir := filepath.Join(work, "crafted")
 	_ = os.MkdirAll(dir, 0755)
 	scenario := j % 8
@@ -515,7 +515,7 @@ func c10Nested(c *fw.Case, work, src string, keys []string, r0 map[string]*strin
 }
 
 func runC10(c *fw.Case) {
-	work := c.Dir
+	work := realDir(c.Dir) // (the traced process sees real paths: a case directory reached through a link is resolved once)
 	dbdir := filepath.Join(work, "db")
 	_ = os.MkdirAll(dbdir, 0755)
 	ctl := filepath.Join(work, "ctl")
